@@ -10,7 +10,7 @@
   F-C05a (start timer at `now = end_time`) and F-C05b (flexible downtime on a never-checked checkable)
   are repaired in /repo (eead572, 40d44b0); `start_once` and `flexible_trigger` are full theorems.
 -/
-import IcingaProofs.C05.Rel
+import IcingaProofs.C05.Trace
 
 namespace Icinga.C05
 
@@ -146,73 +146,6 @@ theorem owner_protected (st : St) (id : Nat) (now : Int) (d : Dt) (hf : findDt s
 
 /-! ### DowntimeStart at most once -/
 
-/-- Well-formed operation sequence after time `T`: the clock does not run backwards and every check
-    result carries an execution end in `(0, now]`. -/
-def opOK : Op → Prop
-  | .result _ te now => 0 < te ∧ te ≤ now
-  | _ => True
-
-instance : DecidablePred opOK := fun op => by cases op <;> unfold opOK <;> infer_instance
-
-def WF : Int → List Op → Prop
-  | _, [] => True
-  | T, op :: ops => T ≤ op.now ∧ opOK op ∧ WF op.now ops
-
-instance : ∀ T ops, Decidable (WF T ops)
-  | _, [] => by unfold WF; infer_instance
-  | T, op :: ops => by unfold WF; exact @instDecidableAnd _ _ _ (@instDecidableAnd _ _ _ (instDecidableWF op.now ops))
-
-/-- State invariant behind `start_once` at the time bound `T`. -/
-def SInv (T : Int) (st : St) : Prop :=
-  0 < st.lastStateChange ∧ st.lastStateChange ≤ T ∧ AllC (IStart T) st.dts
-
-theorem sinv_step (T : Int) (st : St) (op : Op) (hi : SInv T st) (hT : T ≤ op.now)
-    (hop : opOK op) :
-    SInv op.now (step st op).1 := by
-  obtain ⟨hl0, hl1, hall⟩ := hi
-  have hall' : AllC (IStart op.now) st.dts := fun d hd => iStart_mono hT (hall d hd)
-  have hopT : OpT st (fun t => 0 < t ∧ t ≤ op.now) (IStart op.now) op := by
-    cases op with
-    | add p now =>
-      simp only [Op.now] at hT
-      refine ⟨?_, ?_⟩
-      · simp only [IStart, newDt, Op.now]; omega
-      · intro hc
-        have hw := canBeTriggered_window hc
-        simp only [newDt, Op.now] at hw ⊢
-        omega
-    | result s te now => exact hop
-    | pump now => trivial
-    | remove id u now => trivial
-  have hdts : AllC (IStart op.now) (step st op).1.dts := by
-    intro d' hd'
-    rcases step_pred st op (stepRel_RStart op.now) hall' hopT d' hd' with ⟨d, hd, r⟩ | ⟨p, hp, r⟩
-    · exact r (hall' d hd)
-    · apply r
-      simp only [IStart, newDt]; omega
-  cases op with
-  | add p now =>
-    refine ⟨?_, ?_, hdts⟩ <;> (simp only [step, addOp]; split <;> simp only [Op.now] at hT ⊢ <;> omega)
-  | result s te now =>
-    have hop' : 0 < te ∧ te ≤ now := hop
-    refine ⟨?_, ?_, hdts⟩ <;>
-      (simp only [step, resultOp]; split <;> simp only [Op.now] at hT ⊢ <;> (try split) <;> omega)
-  | pump now =>
-    refine ⟨?_, ?_, hdts⟩ <;> (simp only [step, pumpOp]; split <;> simp only [Op.now] at hT ⊢ <;> omega)
-  | remove id u now =>
-    refine ⟨?_, ?_, hdts⟩ <;>
-      (simp only [step, removeOp]; split <;> (try split) <;> simp only [Op.now] at hT ⊢ <;> omega)
-
-theorem sinv_run (ops : List Op) : ∀ (T : Int) (st : St), SInv T st → WF T ops →
-    ∃ T', SInv T' (run st ops) := by
-  induction ops with
-  | nil => intro T st hi _; exact ⟨T, hi⟩
-  | cons op ops ih =>
-    intro T st hi hw
-    obtain ⟨h1, h2, h3⟩ := hw
-    have := ih op.now (step st op).1 (sinv_step T st op hi h1 h2) h3
-    simpa [run] using this
-
 /-- **start_once.**  Over every well-formed operation sequence from a never-checked checkable, every
     downtime causes at most one DowntimeStart notification request. -/
 theorem start_once (k : Kind) (ops : List Op) (hw : WF 990 ops) :
@@ -257,12 +190,6 @@ theorem started_counterexample :
   · decide
 
 /-! ### Flexible trigger -/
-
-theorem can_of_fresh_flexible {now : Int} {d : Dt} (hf : d.fixed = false) (h0 : d.trigger = 0)
-    (h1 : d.start ≤ now) (h2 : now ≤ d.fin) : canBeTriggered now d = true := by
-  have h3 : ¬ now < d.start := by omega
-  have h4 : ¬ now > d.fin := by omega
-  simp [canBeTriggered, isExpired, isInEffect, isTriggered, hf, h0, h3, h4]
 
 /-- **flexible_trigger.**  A flexible downtime takes effect at the first non-OK result, or on an already
     existing problem, inside `[start, end]`:
@@ -327,6 +254,27 @@ theorem flexible_trigger (st : St) (now : Int) :
     rcases r3.2.2.2.2.2.2.2 with h7 | ⟨h7, _⟩
     · rw [h7]; exact ht2
     · rw [ht2] at h7; exact absurd h7 hte
+
+/-! ### The whole trace -/
+
+/-- **model_trace_meets_spec_partial.**  For every well-formed operation sequence (the clock does not run
+    backwards, check results carry an execution end in `(0, now]`) from a never-checked checkable, the
+    trace of the model — operations with the model's own observations — satisfies the executable
+    specification on the clauses of `coreMask`: in-downtime iff a downtime is in effect, depth = their
+    number, trigger time write-once, triggers only inside the window, at most one DowntimeStart per
+    downtime, DowntimeEnd exactly once for a downtime that took effect and is removed (none otherwise),
+    OnDowntimeRemoved exactly at removal, a dropped result changes nothing, schedule-owned downtimes are
+    protected from users.  The full statement `specTrace (specInit k) (trace (initSt k) ops) = none` is false of the
+    code (F-C05c: `started_when_triggered`, `end_has_start`); the remaining clauses are listed at
+    `coreMask`. -/
+theorem model_trace_meets_spec_partial (k : Kind) (ops : List Op) (hw : WF 990 ops) :
+    specTraceM coreMask (specInit k) (trace (initSt k) ops) = none := by
+  apply trace_core ops (specInit k) (initSt k) 990 _ _ _ _ hw
+  · exact ⟨rfl, rfl, fun h => by simp [specInit] at h, fun _ => rfl, rfl, rfl, Pw.nil⟩
+  · simp [initSt, idsOf]
+  · refine ⟨by simp [initSt], by simp [initSt], ?_⟩
+    intro d hd; simp [initSt] at hd
+  · intro d hd; simp [initSt] at hd
 
 /-! ### Non-vacuity -/
 
